@@ -48,6 +48,17 @@ var c01Paths = func() []string {
 	return ps
 }()
 
+// every path, and every path of <= 2 segments again with a trailing slash (for the StrictLastSlash tables)
+var c01PathsSlash = func() []string {
+	out := append([]string{}, c01Paths...)
+	for _, p := range c01Paths {
+		if p != "/" && strings.Count(p, "/") <= 2 {
+			out = append(out, p+"/")
+		}
+	}
+	return out
+}()
+
 type c01Case struct {
 	Routes  []refmodel.RouteDef `json:"routes"`
 	Methods []string            `json:"request_methods"`
@@ -58,7 +69,14 @@ type c01Case struct {
 	// Late: the router caches dynamic matches (capacity 64) and the LAST route is registered only after all requests
 	// were issued once; every request is then issued again and judged against the full table
 	Late bool `json:"last_route_registered_late,omitempty"`
+	// Strict: the router is built with StrictLastSlash ('/x' and '/x/' are different paths); every path is also requested
+	// with a trailing slash
+	Strict bool `json:"strict_last_slash,omitempty"`
 }
+
+// patterns for the StrictLastSlash tables: routes that end in '/', and routes whose tail after a literal first segment
+// may be empty
+var c01StrictPool = []string{"/a", "/a/", "/a/{x}", "/a/{x}/", "/a/{f:.*}", "/a/[{x}]", "/a/[b.html]", "/{d}/", "/{d}", "/a/b[/]", "/[{x}/]"}
 
 var c01MethodSets = [][]string{{"GET"}, {"POST"}, {"GET", "POST"}, {"PUT", "DELETE", "GET"}}
 
@@ -143,6 +161,16 @@ func c01Gen(tier string, emit func(c01Case)) {
 		emit(c01Case{Routes: defs, Methods: reqM, Late: true})
 	})
 	permute(c01Pool, 2, withSets)
+	// StrictLastSlash: single routes and ordered pairs over the strict pool (and the pairs of the main pool, all-GET)
+	for _, p := range c01StrictPool {
+		emit(c01Case{Routes: []refmodel.RouteDef{{Path: p, Methods: []string{"GET", "POST"}}}, Methods: reqM, Strict: true})
+	}
+	permute(c01StrictPool, 2, func(pats []string) {
+		emit(c01Case{Routes: []refmodel.RouteDef{{Path: pats[0], Methods: []string{"GET"}}, {Path: pats[1], Methods: []string{"GET", "POST"}}}, Methods: reqM, Strict: true})
+	})
+	permute(c01Pool, 2, func(pats []string) {
+		emit(c01Case{Routes: []refmodel.RouteDef{{Path: pats[0], Methods: []string{"GET"}}, {Path: pats[1], Methods: []string{"GET"}}}, Methods: []string{"GET"}, Strict: true})
+	})
 	if tier == "quick" {
 		permute(c01Pool, 3, allGet)
 	} else {
@@ -160,7 +188,7 @@ func c01Run(c c01Case, st *fw.Stats) []fw.Viol {
 			viols = append(viols, fw.Viol{Sig: sig, Msg: msg})
 		}
 	}
-	tb, err := refmodel.NewTable(c.Routes, refmodel.Opts{})
+	tb, err := refmodel.NewTable(c.Routes, refmodel.Opts{Strict: c.Strict})
 	if err != nil {
 		panic(err)
 	}
@@ -177,6 +205,9 @@ func c01Run(c c01Case, st *fw.Stats) []fw.Viol {
 		}
 		note = " (caching router; the last route is not registered yet)"
 		r, pv = buildRouterVia(c.Routes[:n], c.Via, rec, rux.CachingWithNum(64))
+	} else if c.Strict {
+		note = " (StrictLastSlash)"
+		r, pv = buildRouterVia(c.Routes, c.Via, rec, rux.StrictLastSlash)
 	} else {
 		r, pv = buildRouterVia(c.Routes, c.Via, rec)
 	}
@@ -205,8 +236,12 @@ func c01Run(c c01Case, st *fw.Stats) []fw.Viol {
 
 // c01Requests issues every method x path on the router and compares with the table
 func c01Requests(c c01Case, r *rux.Router, rec *hitRec, tb *refmodel.Table, note string, st *fw.Stats, add func(sig, msg string)) {
+	paths := c01Paths
+	if c.Strict {
+		paths = c01PathsSlash
+	}
 	for _, m := range c.Methods {
-		for _, p := range c01Paths {
+		for _, p := range paths {
 			st.Evals++
 			want := tb.Resolve(m, p)
 			var gotIdx int
@@ -285,7 +320,7 @@ func c01Requests(c c01Case, r *rux.Router, rec *hitRec, tb *refmodel.Table, note
 var c01Spec = fw.Spec[c01Case]{
 	ID:    "C01",
 	Level: "model_checking",
-	Rule: "complete product: ordered route tables of <=K distinct patterns from a 27-pattern pool (every index/tier shortcut has colliding members) x method sets x registration APIs (Add, AddRoute(NewRoute), AddNamed, NewNamedRoute.AttachTo, GET/POST/... helpers, options via WithOptions, the pattern split into a Group prefix and a route path) (+ every ordered pair again after the router's inspection API was used, and on a caching router with the second route registered only after a first round of all requests) x request methods x all 259 paths of <=3 segments over {a,b,a.b,axb,12,q.html}; " +
+	Rule: "complete product: ordered route tables of <=K distinct patterns from a 27-pattern pool (every index/tier shortcut has colliding members) x method sets x registration APIs (Add, AddRoute(NewRoute), AddNamed, NewNamedRoute.AttachTo, GET/POST/... helpers, options via WithOptions, the pattern split into a Group prefix and a route path) (+ StrictLastSlash tables: ordered pairs over an 11-pattern pool of routes that end in '/' or whose tail may be empty, and the pairs of the main pool, with every path also requested with a trailing slash) (+ every ordered pair again after the router's inspection API was used, and on a caching router with the second route registered only after a first round of all requests) x request methods x all 259 paths of <=3 segments over {a,b,a.b,axb,12,q.html}; " +
 		"each (table,method,path) is one evaluation: Router.Match and ServeHTTP on the real router vs refmodel.Resolve; non-trivial = at least two routes qualify or the winner is not the first registered route",
 	Assume: []string{
 		"patterns and paths are drawn from the stated alphabets; larger tables are covered only as far as the small-scope hypothesis goes",
